@@ -72,9 +72,21 @@ def repr_of(it, x):
         if all(isinstance(p, str) for p in parts):
             inner = ", ".join(parts) + ("," if isinstance(x, tuple) and len(x) == 1 else "")
             return ("[%s]" if isinstance(x, list) else "(%s)") % inner
+        if all(isinstance(p, (str, SStr)) for p in parts):
+            terms = [z3.StringVal("[" if isinstance(x, list) else "(")]
+            for i, p_ in enumerate(parts):
+                if i:
+                    terms.append(z3.StringVal(", "))
+                terms.append(it.zstr(p_))
+            terms.append(z3.StringVal(("," if isinstance(x, tuple) and len(x) == 1 else "") + ("]" if isinstance(x, list) else ")")))
+            return SStr(z3.Concat(*terms))
         raise Unsupported("repr of container with symbolic elements")
     if isinstance(x, SInt):
         return str_of(it, x)
+    if isinstance(x, SStr):
+        note("repr(str)", "repr() of a string is an injective uninterpreted function")
+        it.approx.append("repr(str)")
+        return SStr(z3.Function("str_repr", z3.StringSort(), z3.StringSort())(x.t))
     if isinstance(x, Opaque):
         return SStr(py_repr(x.t))
     if isinstance(x, Sym):
@@ -136,14 +148,45 @@ def attr_model(it, o, name):
                         return SStr(z3.SubString(t, lo, k.stop - lo))
                 raise Unsupported("subscript of symbolic string")
             return f
-        if name in ("lower", "upper", "casefold", "strip", "lstrip", "rstrip", "title", "swapcase", "capitalize") :
-            note("str case/strip methods", "str.lower/upper/strip/... are deterministic uninterpreted functions of the string (and of their constant argument)")
+        if name in ("rstrip", "lstrip", "strip"):
+            def f(chars=None):
+                if not isinstance(chars, str) or not chars:
+                    raise Unsupported(f"str.{name} without a constant character set")
+                cs = z3.Union(*[z3.Re(c) for c in chars]) if len(chars) > 1 else z3.Re(chars)
+                it.fresh = getattr(it, "fresh", 0) + 1
+                core, pre, suf = z3.String(f"strip_core!{it.fresh}"), z3.String(f"strip_pre!{it.fresh}"), z3.String(f"strip_suf!{it.fresh}")
+                conds = []
+                if name in ("lstrip", "strip"):
+                    conds += [z3.InRe(pre, z3.Star(cs)), z3.Not(z3.InRe(core, z3.Concat(cs, ANYSTAR)))]
+                else:
+                    conds.append(pre == z3.StringVal(""))
+                if name in ("rstrip", "strip"):
+                    conds += [z3.InRe(suf, z3.Star(cs)), z3.Not(z3.InRe(core, z3.Concat(ANYSTAR, cs)))]
+                else:
+                    conds.append(suf == z3.StringVal(""))
+                it.assume(z3.And(t == z3.Concat(pre, core, suf), *conds))
+                return SStr(core)
+
+            return f
+        if name in ("lower", "upper", "casefold", "title", "swapcase", "capitalize"):
+            note("str case methods", "str.lower/upper/... are deterministic uninterpreted functions of the string (over-approximation: refutations that depend on them must replay to count)")
 
             def f(*a):
-                if any(not isinstance(x, str) for x in a):
-                    raise Unsupported(f"str.{name} with symbolic argument")
-                fn = z3.Function(f"str_{name}" + "".join("_%s" % "".join("%02x" % ord(c) for c in x) for x in a), z3.StringSort(), z3.StringSort())
-                return SStr(fn(t))
+                if a:
+                    raise Unsupported(f"str.{name} with arguments")
+                it.approx.append(f"str.{name}")
+                return SStr(z3.Function(f"str_{name}", z3.StringSort(), z3.StringSort())(t))
+
+            return f
+        if name in ("rpartition", "partition", "split", "rsplit", "removesuffix", "removeprefix", "isidentifier", "isdecimal", "isdigit", "isalnum", "isalpha", "isascii", "splitlines", "find", "rfind", "index", "count", "title", "zfill", "ljust", "rjust"):
+            def f(*a, **k):
+                v = it.split_values(t)
+                if v is None:
+                    raise Unsupported(f"str.{name} on a symbolic string with infinitely many values")
+                try:
+                    return getattr(v, name)(*a, **k)
+                except Exception as e:
+                    raise PyRaise(e)
 
             return f
         if hasattr(str, name):
